@@ -112,6 +112,8 @@ class Node(Config):
     du: Param[Dict[str, Union[int, Dict[str, int]]]] = {}
     dli: Param[List[int]] = [1, 2]
     ddi: Param[Dict[str, int]] = {"a": 1}
+    od: Param[Optional[int]] = 7
+    ods: Param[Optional[str]] = "x"
     nl: Param[List[List[Config]]] = []
     dlc: Param[Dict[str, List[Config]]] = {}
     ldc: Param[List[Dict[str, Config]]] = []
@@ -276,6 +278,8 @@ SPEC = {
             "du": ("p", ("dict", ("union", "int", ("dict", "int"))), {}, False),
             "dli": ("p", ("list", "int"), [1, 2], False),
             "ddi": ("p", ("dict", "int"), {"a": 1}, False),
+            "od": ("p", ("opt", "int"), 7, False),
+            "ods": ("p", ("opt", "str"), "x", False),
             "nl": ("p", ("list", ("list", CFG)), [], False),
             "dlc": ("p", ("dict", ("list", CFG)), {}, False),
             "ldc": ("p", ("list", ("dict", CFG)), [], False),
